@@ -623,8 +623,7 @@ SPECS = {
                                        "kinematic statement of C13 on every explored run, not proved"]),
     "C14": dict(run=run_c14, trusted=["modelled, not verified: Fleet / FleetStore classes and the SimPy kernel (its contract is the legality "
                                       "condition of FActivate / FArrive / FIdle in the timed model, checked against the real kernel by the correspondence)",
-                                      "liveness half of the waiting bound ('the item does become available') rests on the kernel processing due events; "
-                                      "the theorem bounds the availability time of every item that became available",
+                                      "the waiting bound is proved for every legal history: legality (the kernel processes due events and never lets the clock pass one) is what the correspondence checks against the real kernel",
                                       "integer delays in the harness"]),
     "C11": dict(run=run_c11, trusted=["modelled, not verified: Buffer / BufferStore classes, SimPy kernel (its contract 'an event scheduled "
                                       "for t is processed at now = t, the clock never passes a pending event' is the legality condition "
